@@ -352,7 +352,7 @@ def model_save_quantized_weights(model, filename=None, custom_objects={}):
           diff = np.round(log2val) - log2val
           assert np.all(diff == 0), "scale must be power of 2 values!"
           # Convert fixed point weight to integer weight, just
-          hw_weight = weight * m / m_i
+          hw_weight = weight * m / (m_i * scale)
           # Because hw_weight is integer weights, set scale = scale * m_i / m
           # so that when we can multiply scale with the integer weight
           # during hardware inference to get the fixed point weights
